@@ -13,6 +13,21 @@ COMMON_ASSUMPTIONS = [
 ]
 
 
+import re as _re
+from pathlib import Path as _Path
+
+
+def names(prefixes, exclude=()):
+    """harness names found in harness/src (incl. generated files) starting with one of the prefixes, minus excluded substrings;
+    used where a run must leave some harnesses of a family out (Kani has no exclude filter)"""
+    src = _Path(__file__).resolve().parent.parent / "harness" / "src"
+    found = set()
+    for f in src.glob("*.rs"):
+        found |= set(_re.findall(r"\b(c\d\d[qtnkh]_[a-z0-9_]+)\b", f.read_text()))
+    out = sorted(n for n in found if any(n.startswith(p) for p in prefixes) and not any(x in n for x in exclude))
+    return out
+
+
 def std_runs(n, stubbing=False, heavy=False, **kw):
     """the usual pair: quick = cNNq_+cNNk_, thorough = + cNNt_ + cNNn_"""
     p = "c%02d" % n
@@ -135,7 +150,7 @@ PROPS.update({
     "C17": dict(level="other", runs=std_runs(17), pre=[["python3", "tools/lift_constfn.py"]], post="c17",
         level_text="Reduced claim. Solver part: the index-validity kernel (search_for_invalid_index / duplicate_info) is lifted verbatim from the REAL macro expansion on every run and decided by Kani over all usize index arrays of size 1..5; translation validation: the lifted `indices` tables equal attribute > discriminant > position-among-non-skipped for 5 template enums and the guarded panic blocks exist in both the Encode and Decode expansion; validation against the real compiler: 20 twin programs (faulty / minimally different valid) must be rejected / accepted. The compile-outcome clauses for arbitrary programs are outside what a solver over program text can decide.",
         technique="Kani/CBMC on the const-fn kernel lifted from the real macro expansion + translation validation of the lift + twin programs compiled against /repo",
-        bounds="kernel: all usize index arrays of size 1..=5",
+        bounds="kernel: all usize index arrays of size 1..=5 (quick) and 8 (thorough)",
         outside="256-variant cap, and 'every fault-free definition compiles' for arbitrary definitions: outcomes of compiling concrete programs (only the 20 twins are compiled)",
         explanation="C17 quantifies over programs; the accept/reject decision is taken by rustc running the proc-macro on program text and by its const evaluator on literal indices. Decided here: the kernel that carries the logic (solver, all index arrays up to 5 variants), its faithful extraction (translation validation), and agreement of 20 concrete twin programs with the real compiler."),
 })
@@ -150,8 +165,9 @@ _C20_MORE = ["c01q_i64", "c01q_res_opt", "c01q_tup3", "c01q_arr_opt_3", "c01q_ve
              "c03q_u16", "c03q_res_opt_compact", "c03q_tup3", "c03q_arr_opt_3", "c03q_box_u32", "c03q_vec_u32_2", "c03q_list_u8_2", "c04q_enc_u128", "c04q_width_u16_u32"]
 PROPS["C20"] = dict(
     runs=[
-        dict(features=["c01", "c03", "c04"], cfg="std", filters={"quick": _C20_CORE + _C20_MORE, "thorough": ["c01q_", "c03q_", "c04q_"]}),
-        dict(features=["c01", "c03", "c04"], cfg="chain", filters={"quick": _C20_CORE, "thorough": ["c01q_", "c03q_", "c04q_"]}),
+        # (error paths that chain descriptions make the hostile element-path count queries time out under chain-error: left to the no-std run)
+        dict(features=["c01", "c03", "c04"], cfg="std", filters={"quick": _C20_CORE + _C20_MORE, "thorough": names(["c01q_", "c03q_", "c04q_"], exclude=["vec_opt_max", "vec_bool_2p14", "derived_"])}),
+        dict(features=["c01", "c03", "c04"], cfg="chain", filters={"quick": _C20_CORE, "thorough": names(["c01q_", "c03q_", "c04q_"], exclude=["vec_opt_max", "vec_bool_2p14", "derived_"])}),
         dict(features=["c01", "c03", "c04"], cfg="nostd", noext=True, filters={"quick": _C20_CORE, "thorough": ["c01q_", "c03q_", "c04q_"]}),
         dict(features=["c07", "c08"], cfg="std", filters={"quick": ["c07q_ent_vec_opt_2", "c07q_ent_u32", "c07q_ent_string_2", "c07q_iow_vec_u16_3"], "thorough": ["c07q_ent_", "c07q_iow", "c08q_in_tup3", "c08q_in_vec_opt_2"]}),
         dict(features=["c20", "big"], cfg="nostd", stubbing=True, jobs=2, mem_gb=28, harness_timeout=1500, timeout=7200, filters={"quick": [], "thorough": ["c20h_"]}),
